@@ -214,6 +214,10 @@ def index_case(draw):
             read = read[:p] + "N" + read[p + 1:]
     elif r == 4:
         read = read.lower()
+    elif r in (6, 7):
+        # soft-masked: some stretches in lower case (matching ignores case)
+        flips = draw(st.lists(st.booleans(), min_size=len(read), max_size=len(read)))
+        read = "".join(c.lower() if f else c for c, f in zip(read, flips))
     elif r == 5:
         read = src
     return {"sub": "index", "prefix": prefix, "indels": indels, "adapters": ads, "e": e, "read": read}
